@@ -699,7 +699,7 @@ class C12(core.Check):
                   "MODEL of urwid's control flow.  The model is tied to the code by exact correspondence of the full call trace "
                   "(screen calls, DEC private mode writes in write order, callbacks), outcome, final modes and signal handlers "
                   "with the real MainLoop + SelectEventLoop driving the real raw_display.Screen on pipes (no tty) and a plain "
-                  "BaseScreen fake (4k+ sessions per quick run).  PARTIAL BY NATURE / oracle only: termios save/restore, "
+                  "BaseScreen fake (3k+ sessions per quick run).  PARTIAL BY NATURE / oracle only: termios save/restore, "
                   "delivery through a real pty, and the five other event loops (asyncio, tornado, trio, twisted, zmq) are "
                   "examined by fault injection at every callback index on a pty (final states only), not by proof; the glib loop "
                   "is not installed.  The event loop inside the model is the C13 contract, not the loops' code.")
